@@ -19,6 +19,21 @@ def struct_job(fam):
 
 
 JOBS = {
+    "C06": [
+        {"module": "MC_RoundTrip", "spec": "Spec", "invariants": ["InvWireFaithful", "InvVerify", "InvSameBytes", "InvTryErr", "Emit"],
+         "quick": {"constants": {"MaxCalls": 2}, "timeout": 300},
+         "thorough": {"constants": {"MaxCalls": 3}, "timeout": 3000},
+         "rule": "every lifecycle behaviour new -> up to MaxCalls builder calls (setters and create helpers in any order, closure result chosen by "
+                 "the environment) -> build -> encode (tagged/untagged) -> decode -> one verify/decrypt call with equal or perturbed AAD / payload / "
+                 "signer index, for the seven carriers; each complete behaviour = one session; non-trivial = contains a successful create call"},
+    ],
+    "C02": [
+        {"module": "MC_ProtBytes", "spec": "Spec", "invariants": ["InvProt"],
+         "quick": {"timeout": 300}, "thorough": {"timeout": 1200},
+         "rule": "(header content [8], encoding of that content [min, every head 1/2/4/8 bytes wide, indefinite with two chunkings, zero-length "
+                 "form, bignum key], carrier and nesting position [17]) tuples; each state = one session inject/decode/encode/structures; "
+                 "all non-trivial"},
+    ],
     "C03": struct_job("sig"),
     "C04": struct_job("mac"),
     "C05": struct_job("enc"),
